@@ -5,7 +5,7 @@ import json, subprocess
 # property -> (technique, level text, level note)
 P = {
  "C01": ("rank-table extraction + comparator/scan normal form (SSA value provenance) + guard-cut reachability over the matcher loops + sibling agreement of capture bounds",
-         "Decides structural necessary conditions of dispatch priority: style ranks are strictly ordered; both insertion sites are strict-< forward scans over the receiver's list (stable, FIFO among equals) with the list read after every recursive registration; failed siblings fall through to the next alternative; the match-all leaf is tried last; match-all growth is shortest-first; capture bounds agree between tree and leaf; the request method selects the tree. It does not decide that these mechanisms compose to the documented total order for every route set.",
+         "Decides structural necessary conditions of dispatch priority: style ranks are strictly ordered; both insertion sites are strict-< forward scans over the receiver's list (stable, FIFO among equals) with the list read after every recursive registration; failed siblings fall through to the next alternative; the match-all leaf is tried last; match-all growth is shortest-first; capture bounds agree between tree and leaf; the request method selects the tree. the style interpreters classify a segment by its syntax alone (static only a single literal, placeholder only a single {bind} other than **, match-all only behind the ** test); It does not decide that these mechanisms compose to the documented total order for every route set.",
          "Trusts go/types + go/ssa; regexp semantics and the composition argument are not decided."),
  "C02": ("taint from literal segment text to regexp.Compile (sanitizer regexp.QuoteMeta), anchoring, submatch-index provenance, capture identity and who-may-decode tables over go/ssa",
          "Decides that literal text is quoted before it reaches the regexp, the pattern is anchored at both ends, submatch pairing is group-aware and shared by both matchers, placeholder/match-all captures store exactly the segment under the node's own bind, values are percent-decoded exactly once, and both dispatch paths inject `route` from the dispatched leaf.",
@@ -20,13 +20,13 @@ P = {
          "Decides that no function reachable while serving writes shared framework state except inside sync.Once.Do / sync/atomic; per-request objects are fresh allocations and do not escape into shared objects; injector mutators at request time target the request scope only. This is an ownership argument, not a race proof.",
          "No pointer analysis is available: aliasing is approximated by static type ownership; dependencies and user handlers are outside the analysis."),
  "C06": ("table extraction (lexer rules, parser struct tags, README grammar blocks) and agreement as sets/grammars; printer-vs-grammar token skeleton",
-         "Decides that the struct-tag grammar equals the README EBNF production by production, that the lexer token classes equal the documented character classes, lexer state-machine side conditions (declared states, disjoint first sets, push/pop discipline per state as documented, lookahead), and that the canonical printer emits exactly the grammar's token sequence per alternative with one blank after ':' and ','.",
+         "Decides that the struct-tag grammar equals the README EBNF production by production, that the lexer token classes equal the documented character classes, lexer state-machine side conditions (declared states, disjoint first sets, push/pop discipline per state as documented, lookahead), and that the canonical printer emits exactly the grammar's token sequence per alternative with one blank after ':' and ','. Round 8: a segment of one literal / {bind} / {parameter list} element is rendered within that kind's own production (language equality alone accepts a parameter list rendered in the {bind} form).",
          "participle's interpreter is trusted; totality of parsing is not decided."),
  "C07": ("path counting of chain starts, compiler prove pass (check_bce) + cursor-provenance lattice for slices of the path, guarded type assertions, ban on non-deterministic inputs in the routing path",
-         "Decides that every path through router.ServeHTTP starts exactly one chain; that every index/slice of the request path in the matcher is either proven by the Go compiler's prove pass or discharged by the cursor lattice (0<=next<=len); type assertions in the matcher are guarded by the style they assert; the not-found chain is built from the application's context creator.",
+         "Decides that every path through router.ServeHTTP starts exactly one chain; that every index/slice of the request path in the matcher is either proven by the Go compiler's prove pass or discharged by the cursor lattice (0<=next<=len); type assertions in the matcher are guarded by the style they assert; the not-found chain is built from the application's context creator. Round 8: a leaf matcher reports a match only behind its header gate asked about this request's headers, also where the gate is asked by the callers (shared with C09.R1).",
          "gc's prove pass is trusted as a static analysis; panics inside regexp/net/url/user handlers are not decided."),
  "C08": ("error-discipline dataflow on the registration call graph, guard-cut reachability for method/duplicate/optional/empty/match-all checks, bind-set domination at node allocations, nil-typestate of the root tree",
-         "Decides that every error on the registration path is propagated or panics at registration; unknown methods cannot reach parse/add; an equal-text leaf or a second match-all cannot reach the list store; every bind-carrying node allocation is dominated by a failed lookup of its bind(s) among ancestors and within the segment; only the last segment may be optional; the root tree's nil segment is never dereferenced.",
+         "Decides that every error on the registration path is propagated or panics at registration; unknown methods cannot reach parse/add; an equal-text leaf or a second match-all cannot reach the list store; every bind-carrying node allocation is dominated by a failed lookup of its bind(s) among ancestors and within the segment; only the last segment may be optional; the root tree's nil segment is never dereferenced. Round 8: a leaf is published to the static shortcut only where that leaf itself reports Static(), per method (shared with C10.R1/R2/R6); the method test may be an explicit enumeration of all nine verbs.",
          "Completeness of acceptance beyond absence of nil-dereference/explicit-error paths is not decided."),
  "C09": ("boolean value implication of every leaf matcher's verdict by the header matcher, loop-exit-only true in HeaderMatcher.Match, coverage of Headers() over all leaves incl. the optional short form, who-may-set",
          "Decides that each leaf matcher's true verdict implies its header matcher accepted the request's headers; Match is a conjunction over all constraints with empty values failing; Headers() builds a fresh matcher, applies it to every leaf of the route including the implicit short form, and evicts the shortcut entry.",
@@ -38,13 +38,13 @@ P = {
          "Decides group stack discipline, prefix/handler concatenation order on a fresh slice, absence of append aliasing on long-lived handler slices, verb->method constant agreement for router and ComboRoute, AutoHead gating, one Route call per collected method, and Combo duplicate refusal.",
          "Behavioural equality with the flat expansion follows only together with C01/C03."),
  "C12": ("sibling agreement of bind traversal between printer, regex constructor and URL skeleton; taint from annotations to the skeleton; substitution idiom recognition; guard-cut for the optional segment",
-         "Decides that URL building enumerates every bind the matcher binds, drops annotations, substitutes simultaneously (single Replacer or direct emission), gates the optional segment on withOptional, and that the router front end panics on unknown/empty/duplicate names and forwards pairs unchanged.",
+         "Decides that URL building enumerates every bind the matcher binds, drops annotations, substitutes simultaneously (single Replacer or direct emission), gates the optional segment on withOptional, and that the router front end panics on unknown/empty/duplicate names and forwards pairs unchanged. Round 8: Name() passes over no leaf of the route, so a single-method route cannot stay unnamed.",
          "Inverse relation to matching for all paths is not decided."),
  "C13": ("who-may-call on the embedded writer, cut-reachability ordering inside the once-guarded status region, value provenance of status/size, descending hook loop recognition",
-         "Decides the per-method premises of the response-writer state machine: the underlying WriteHeader is reachable only inside the sync.Once region (or a !Written() guard), after the hooks, with the caller's status, and the status is recorded atomically only after it; underlying Write/Flush only after Written() or an implicit WriteHeader(200) through the wrapper; no body for HEAD; size grows by the forwarded count only; hooks run in reverse registration order from that region only.",
+         "Decides the per-method premises of the response-writer state machine: the underlying WriteHeader is reachable only inside the sync.Once region (or a !Written() guard), after the hooks, with the caller's status, and the status is recorded atomically only after it; underlying Write/Flush only after Written() or an implicit WriteHeader(200) through the wrapper; no body for HEAD; size grows by the forwarded count only; hooks run in reverse registration order from that region only. Round 8: the attempt to send the first status is consumed (sync.Once) before the hooks run, so a hook runs at most once also when one of them panics.",
          "sync.Once and sync/atomic contracts trusted; hook re-entrancy not decided."),
  "C14": ("value provenance of every status/body write in the default return handler, guard-cut on validity/zero/error edges, return-handler dispatch in the run loop, fast-path result order",
-         "Decides the shape of the return-value table: WriteHeader arguments are 500 on the non-nil-error edge or int(vals[0]) on the Kind()==Int edge of the two-value case; bodies derive from the selected value or err.Error(); nothing is written for invalid/zero values; the run loop looks the handler up by type and passes (context, values); the teapot fast path returns its results in declaration order.",
+         "Decides the shape of the return-value table: WriteHeader arguments are 500 on the non-nil-error edge or int(vals[0]) on the Kind()==Int edge of the two-value case; bodies derive from the selected value or err.Error(); nothing is written for invalid/zero values; the run loop looks the handler up by type and passes (context, values); the teapot fast path returns its results in declaration order. Round 8: a returned body commits the response whatever the method (shares C13.R4: the implicit 200 precedes the HEAD shortcut).",
          "reflect.Value semantics trusted."),
  "C15": ("defer/recover structure of the Recovery literal, guard-cut 500 on the recovered edge, taint from recover()/stack to response sinks guarded by Env()==dev, exit-call ban over the request phase",
          "Decides that a deferred literal calling recover() directly dominates Next(), does not re-panic, writes 500 on the recovered edge, lets panic detail reach the response only under development mode, that injection failures panic inside the chain, and that nothing reachable while serving exits the process.",
@@ -53,10 +53,10 @@ P = {
          "Decides the method gate, the prefix test at a segment boundary, that response effects are unreachable unless Open and Stat succeeded (and the index is a regular file), that the only file access is FileSystem.Open on the configured file system, and that what is served is the opened file or the opened index.",
          "http.Dir containment and http.ServeContent behaviour trusted (stdlib)."),
  "C17": ("ordering and provenance per render method, option flow into encoders, per-request mapping of Render",
-         "Decides, for each of JSON/XML/Binary/PlainText, Content-Type (right format constant, configured charset) -> WriteHeader(own status parameter) -> body from the own value parameter on the wrapper writer; indentation options reach the encoders; charset defaults to utf-8; Renderer maps a fresh render bound to the request's writer on the request context.",
+         "Decides, for each of JSON/XML/Binary/PlainText, Content-Type (right format constant, configured charset) -> WriteHeader(own status parameter) -> body from the own value parameter on the wrapper writer; indentation options reach the encoders; charset defaults to utf-8; Renderer maps a fresh render bound to the request's writer on the request context. Round 8: every path through Renderer's handler maps the render.",
          "Encoder fidelity (encoding/json, encoding/xml) trusted."),
  "C18": ("compiler prove pass for index safety + totality ban list over accessor methods, sibling agreement of the default rule, parse-function table, escape/unescape pairing",
-         "Decides that the accessors contain no unproven index, unchecked assertion, explicit panic or partial callee; that every Query* sibling returns the default exactly on (value empty and default given); that each typed accessor uses the documented parser with base 10 / 64 bits; and that SetCookie/Cookie form a QueryEscape/QueryUnescape pair with raw fallback.",
+         "Decides that the accessors contain no unproven index, unchecked assertion, explicit panic or partial callee; that every Query* sibling returns the default exactly on (value empty and default given); that each typed accessor uses the documented parser with base 10 / 64 bits; and that SetCookie/Cookie form a QueryEscape/QueryUnescape pair with raw fallback. Round 8: once the text was parsed strconv's value is the answer also on ErrRange (another value only where errors.Is(err, strconv.ErrRange) is false; ParseBool's false).",
          "net/http cookie sanitising and strconv semantics trusted."),
 }
 
